@@ -5,6 +5,11 @@ from stages.common import *
 
 MON_C16 = {"Mon_CurrentUnique", "Mon_CurrentSchedule", "Mon_Next", "Mon_Monotone", "Mon_NoWrap"}
 
+# classes whose predicate multiplies period and argument: the period is fixed to a literal chosen from
+# the seed (inputs only), which keeps every SMT query linear
+NONLINEAR = {"R_AtElapsedMax", "R_ProductWraps", "R_ProductWrapsSmall", "R_ProductNegative", "R_JustAboveBuffer"}
+NL_PERIODS = [3, 25, 30, 1000, 3600, 65537, 1000003, 16777259, 2147483659, 4294967291, 4294967295, 7, 86400, 4, 1023, 4294901760]
+
 # boundary classes of Apa_RoundTime.tla: name -> (call kind, period free?, genesis free?)
 CLASSES = {
     "R_BelowGuard": ("TOR", 1, 1), "R_TwoBelowGuard": ("TOR", 1, 1), "R_AtGuard": ("TOR", 1, 1),
@@ -75,7 +80,9 @@ def witness_module(classes, seed):
         ex += ["p%d \\in 1..MaxPeriod" % i, "g%d \\in 0..MaxGenesis" % i,
                "a%d \\in 0..%s" % (i, "(MaxU - 1)" if kind == "TOR" else "(MaxGenesis + MaxElapsed)")]
         conj.append("%s(p%d, g%d, a%d)" % (c, i, i, i))
-        if pfree and seed is not None:   # seed-dependent diversification of the free coordinates
+        if c in NONLINEAR:
+            conj.append("p%d = %d" % (i, NL_PERIODS[((seed or 0) * 5 + i) % len(NL_PERIODS)]))
+        elif pfree and seed is not None:   # seed-dependent diversification of the free coordinates
             conj.append("p%d %% 11 = %d" % (i, (seed * 7 + i * 3) % 11))
         if gfree and seed is not None:
             conj.append("g%d %% 13 = %d" % (i, (seed * 5 + i) % 13))
